@@ -365,7 +365,7 @@ def engine : Engine DState where
             let o := scriptedOracle kind sc
             let (mit', mout) := pullMany o (sc.length + 3) m mit []
             let viol := if impl == mout then none
-              else some "C17: iterator sequence differs from manual paging (foreign server: the iterator must follow NextCursor until it is empty, whatever the pages hold)"
+              else some "C17: iterator sequence differs from manual paging against a foreign server (start at the given cursor, follow NextCursor until it is empty whatever the pages hold, stop at the first error)"
             (d.set kind { k with mit := some mit', sit := some mit' }, { model := mout, violated := viol })
           | none =>
           -- model: the iterator machine against the model server (whose index cache it fills)
@@ -392,7 +392,7 @@ def engine : Engine DState where
           let (sout, ending) := manualAll o c (sc.length + 2)
           -- (a cyclic script has no finite manual listing: nothing to compare with)
           let viol := if impl == sout || ending == .running then none
-            else some "C17: iterator sequence differs from manual paging (foreign server: the iterator must follow NextCursor until it is empty, whatever the pages hold)"
+            else some "C17: iterator sequence differs from manual paging against a foreign server (start at the given cursor, follow NextCursor until it is empty whatever the pages hold, stop at the first error)"
           (d, { model := mout, violated := viol })
         | none =>
         let fuel := 2 * k.reg.length + 8
